@@ -58,6 +58,9 @@ type hist struct {
 	autosave  string          // every-edit | random | never
 	noReplay  bool            // the history is not one runHistory can replay
 	deleted   map[string]bool // ids of deleted nodes
+	// sessions: the history continues on the application a saved file was loaded into
+	session          int
+	holeBelowHighest bool // since the last load a node other than the highest-numbered one was deleted
 }
 
 func (h *hist) logf(format string, a ...any) {
@@ -252,6 +255,15 @@ func (h *hist) create(ct *catType) *hnode {
 		h.res.Violate("create-node-error", "graph.Instance.CreateNode", ct.Short, fmt.Sprintf("CreateNode(%q) on a registered type: %v", ct.Type, err), h.witness())
 		h.dead = true
 		return nil
+	}
+	if other := h.byID[id]; other != nil {
+		h.res.Violate("duplicate-node-id", "graph.Instance.CreateNode", fmt.Sprintf("session %d", h.session+1),
+			fmt.Sprintf("CreateNode(%q) returned the id %s, which the live node of type %s already has", ct.Type, id, other.t.Short), h.witness())
+		h.dead = true
+		return nil
+	}
+	if h.session > 0 {
+		h.res.Count("nodes_created_after_reload", 1)
 	}
 	n := &hnode{id: id, t: ct, tame: ct.IsParam && h.r.Intn(10) < 6}
 	if ct.IsParam && (ct.Out == outBytes || ct.Out == outImage || ct.Out == outBool || ct.Out == outColor) {
@@ -702,6 +714,56 @@ func (h *hist) grow(n *hnode, depth int) {
 	}
 }
 
+func nodeNumber(id string) int {
+	n := -1
+	fmt.Sscanf(id, "Node-%d", &n)
+	return n
+}
+
+// deleteNode deletes a node nothing depends on (half of the time after the UI has
+// posted a position for it, which stays behind).
+func (h *hist) deleteNode(n *hnode) {
+	r := h.r
+	for _, o := range h.nodes {
+		if nodeNumber(o.id) > nodeNumber(n.id) {
+			h.holeBelowHighest = true // a node other than the highest-numbered one goes
+		}
+	}
+	if nm, _ := h.meta["nodes"].(map[string]any); r.Intn(2) == 0 && nm[n.id] == nil {
+		// the UI has posted a position for the node; deleting the node leaves it behind
+		if nm == nil {
+			nm = map[string]any{}
+			h.meta["nodes"] = nm
+		}
+		value := map[string]any{"x": tameFloat(r) * 200, "y": tameFloat(r) * 200}
+		nm[n.id] = map[string]any{"position": deepCopy(value)}
+		key := "nodes." + n.id + ".position"
+		h.logf("setmetadata %s", key)
+		h.metaOps++
+		h.res.Count("op_set_metadata", 1)
+		if !h.try("graph.Instance.SetMetadata", func() { h.g.SetMetadata(key, value) }) {
+			return
+		}
+	}
+	if h.deleted == nil {
+		h.deleted = map[string]bool{}
+	}
+	h.deleted[n.id] = true
+	h.logf("delete %s", n.id)
+	h.res.Count("op_delete_node", 1)
+	h.deletions++
+	if !h.try("graph.Instance.DeleteNode", func() { h.g.DeleteNode(n.id) }) {
+		return
+	}
+	delete(h.byID, n.id)
+	for i, o := range h.nodes {
+		if o == n {
+			h.nodes = append(h.nodes[:i], h.nodes[i+1:]...)
+			break
+		}
+	}
+}
+
 // evaluable: no node in the cone of id is non-deterministic by design
 func (h *hist) evaluable(id string) bool {
 	for x := range h.cone(id) {
@@ -817,39 +879,7 @@ func (h *hist) step() {
 		if n == nil {
 			return
 		}
-		if nm, _ := h.meta["nodes"].(map[string]any); r.Intn(2) == 0 && nm[n.id] == nil {
-			// the UI has posted a position for the node; deleting the node leaves it behind
-			if nm == nil {
-				nm = map[string]any{}
-				h.meta["nodes"] = nm
-			}
-			value := map[string]any{"x": tameFloat(r) * 200, "y": tameFloat(r) * 200}
-			nm[n.id] = map[string]any{"position": deepCopy(value)}
-			key := "nodes." + n.id + ".position"
-			h.logf("setmetadata %s", key)
-			h.metaOps++
-			h.res.Count("op_set_metadata", 1)
-			if !h.try("graph.Instance.SetMetadata", func() { h.g.SetMetadata(key, value) }) {
-				return
-			}
-		}
-		if h.deleted == nil {
-			h.deleted = map[string]bool{}
-		}
-		h.deleted[n.id] = true
-		h.logf("delete %s", n.id)
-		h.res.Count("op_delete_node", 1)
-		h.deletions++
-		if !h.try("graph.Instance.DeleteNode", func() { h.g.DeleteNode(n.id) }) {
-			return
-		}
-		delete(h.byID, n.id)
-		for i, o := range h.nodes {
-			if o == n {
-				h.nodes = append(h.nodes[:i], h.nodes[i+1:]...)
-				break
-			}
-		}
+		h.deleteNode(n)
 	default: // generate an artifact in the middle of the history (nodes get cached values)
 		var names []string
 		h.try("graph.Instance.ProducerNames", func() { names = h.g.ProducerNames() })
